@@ -698,6 +698,9 @@ def algorithm_correspondence(ctx: Ctx, hists: list[dict]) -> list[tuple[dict, in
     for h in hists:
         for k, r in enumerate(h["result"]):
             for upd in r.get("updates") or []:
+                if not (upd["changed"] or upd["removed"]):
+                    ctx.dist("update_call", "no-op (empty change list)")
+                    continue
                 enc = encode_update(upd)
                 if enc is None:
                     ctx.count("update_calls_not_encodable")
